@@ -452,7 +452,10 @@ INT_PROVIDER = ScalarProvider(
 
 def float_strict_coercion_loader(data):
     if type(data) in (float, int):
-        return float(data)
+        try:
+            return float(data)
+        except OverflowError as e:
+            raise ValueLoadError(str(e), data)
     raise TypeLoadError(Union[float, int], data)
 
 
@@ -466,6 +469,8 @@ def float_lax_coercion_loader(data):
         raise ValueLoadError(e_str, data)
     except TypeError:
         raise TypeLoadError(Union[int, float, str], data)
+    except OverflowError as e:
+        raise ValueLoadError(str(e), data)
 
 
 FLOAT_PROVIDER = ScalarProvider(
